@@ -69,7 +69,7 @@ class CaseBlockCompileHandler(
             raise SsbCompilerError(_("Invalid message switch case call."))
         # get_header_jump_template must be called first.
         self.compiler_ctx.add_switch_case(self)
-        retval = self._process_block(False)
+        retval = self._process_block(False, False)
         self.compiler_ctx.remove_switch_case()
         return retval
 
